@@ -97,7 +97,13 @@ class DataFrame(Entity, DataSet):
             values = tuple(values)
             li_data.append(values)
         pro_data = np.array(li_data, dtype=self.data_type)
-        self.append(pro_data, axis=0)
+        n_rows = len(self)
+        try:
+            self.append(pro_data, axis=0)
+        except Exception:
+            # rows that cannot be stored must not leave empty rows behind
+            self.data_extent = (n_rows,)
+            raise
 
     def write_column(self, column, index=None, name=None):
         """
